@@ -33,6 +33,7 @@ FIELDS = ['type', 'time_received_ns', 'sequence_num', 'sampling_rate', 'sampler_
           'bgp_communities', 'as_path', 'mpls_ttl', 'mpls_label', 'mpls_ip', 'observation_domain_id',
           'observation_point_id', 'layer_stack', 'layer_size', 'ipv6_routing_header_addresses',
           'ipv6_routing_header_seg_left']
+ODD_NAMES = ['a"b', 'back\\slash', 'tab\there', 'new\nline', 'lt<gt>&amp', 'sp ace ', '\u00fcn\u00ef', '\u65e5\u672c', '{"k":1}', "it's", '\x01ctl', '\u2028sep']
 RENDERERS = ['none', 'ip', 'mac', 'etype', 'proto', 'datetime', 'datetimenano', 'string']
 
 
@@ -52,10 +53,12 @@ def gen_cfg(rng):
     rng.shuffle(fields)
     y = ['formatter:', '  fields:'] + ['    - %s' % f for f in fields]
     ren = rng.sample(fields, min(len(fields), rng.randrange(0, 4)))
+    # new names: mostly identifiers, sometimes names with quotes, backslashes, control characters, markup, non-ASCII text
+    renmap = {f: ('x_' + f if rng.random() < 0.6 else rng.choice(ODD_NAMES) + f[:3]) for f in ren}
     if ren:
         y.append('  rename:')
         for f in ren:
-            y.append('    %s: x_%s' % (f, f))
+            y.append('    %s: %s' % (f, json.dumps(renmap[f])))
     rr = rng.sample([f for f in fields if f != 'icmp_name'], min(len(fields) - 1, rng.randrange(0, 6))) if len(fields) > 1 else []
     rmap = {f: rng.choice(RENDERERS) for f in rr}
     if rr:
@@ -74,7 +77,7 @@ def gen_cfg(rng):
                 fid = rng.choice([1, 2, 4, 7, 8, 10, 27, 56, 61, 82, 152])
                 y += ['    - field: %d' % fid, '      destination: %s' % c['name']]
                 nfmaps.append((10 if sect == 'ipfix' else 9, fid, c['name']))
-    toks = fmt_tokens(fields, {f: 'x_' + f for f in ren}, rmap) + ['cfg']
+    toks = fmt_tokens(fields, renmap, rmap) + ['cfg']
     for c in customs:
         toks += ['custom', c['name'], '#%x' % c['index'], '#%x' % (0 if c['type'] == 'varint' else 1), '#%x' % int(c['array'])]
     for ver, fid, dest in nfmaps:
